@@ -5,6 +5,7 @@ A regex-engine timeout is reported as ("inconclusive", ...), never as a result.
 """
 import atexit
 import os
+import re
 import zlib
 import shutil
 import subprocess
@@ -131,7 +132,7 @@ def _construct_flag_flipped_twin(rule_path, input_path, binary, macros):
     are the same in both rules)."""
     try:
         with open(rule_path, encoding="utf-8") as f:
-            doc = yaml.safe_load(f)
+            doc = yaml.load(f, Loader=_HexTextLoader)
         if not isinstance(doc, dict) or "pattern" not in doc or not isinstance(doc.get("config") or {}, dict):
             return
         cfg = dict(doc.get("config") or {})
@@ -289,7 +290,33 @@ def _share_equal_items(doc):
     return doc if found[0] else None
 
 
+class _HexTextLoader(yaml.SafeLoader):
+    """What a rule file means: a hexadecimal scalar (0x10) is the text the rule says, not the YAML integer 16 (JASM reads its rule and
+    macro files that way since F52; this is the harness's own statement of it, nothing is imported from the code under test)."""
+
+
+_HexTextLoader.yaml_implicit_resolvers = {k_: [(t_, r_) for t_, r_ in v_ if t_ != "tag:yaml.org,2002:int"] for k_, v_ in yaml.SafeLoader.yaml_implicit_resolvers.items()}
+_HexTextLoader.add_implicit_resolver("tag:yaml.org,2002:int", re.compile(r"^(?:[-+]?0b[0-1_]+|[-+]?0[0-7_]+|[-+]?(?:0|[1-9][0-9_]*)|[-+]?[1-9][0-9_]*(?::[0-5]?[0-9])+)$"), list("-+0123456789"))
+HEXBARE_MOD = 3  # one generated rule document in three has its hexadecimal strings written the natural way: without quotes
+_QUOTED_HEX = re.compile(r"""(?<=[\s\[,])(['"])(-?0x[0-9a-fA-F]+)\1(?=\s*(?:[,\]\}]|$))""", re.M)
+
+
 def spelled_rule_text(doc):
+    """_spelled_rule_text, and for one document in three every hexadecimal string value / list item without its quotes
+    (`constant_offset: 0x10`, `movl: [0x10]`): the same rule."""
+    text = _spelled_rule_text(doc)
+    if isinstance(doc, str) or not HEXBARE_MOD or zlib.crc32(text.encode("utf-8", "replace")) % HEXBARE_MOD != 1:
+        return text
+    bare = _QUOTED_HEX.sub(lambda m_: m_.group(2), text)
+    if bare == text:
+        return text
+    try:
+        return bare if yaml.load(bare, Loader=_HexTextLoader) == doc else text
+    except yaml.YAMLError:
+        return text
+
+
+def _spelled_rule_text(doc):
     """The rule file of a generated document: block style as a rule; for one document in four (chosen by its content) flow style,
     mixed style, an explicit document start with a comment in front, or a deep indentation.  Raw text is written as it is."""
     if isinstance(doc, str):
